@@ -15,6 +15,7 @@
 #include <time.h>
 #include <unistd.h>
 #include <algorithm>
+#include <map>
 #include <set>
 #include <unordered_set>
 
@@ -695,10 +696,18 @@ static int cmd_check(int argc, char** argv) {
   }
 
   // Minimise and confirm violations (distinct classes only).
+  // A candidate found inside a long-lived worker must reproduce in a fresh process before it is reported. A defect that
+  // corrupts memory can make a run depend on what the worker executed before (addresses, stale contents); then another
+  // candidate of the same class is tried (up to 6 per class). Only a class none of whose candidates reproduces is a
+  // harness problem (exit 2), and only when nothing else was confirmed.
   std::set<std::string> seen_cls;
+  std::map<std::string, int> attempts;
+  std::set<std::string> unconfirmed_cls;
   size_t confirmed = 0;
   for (auto& v : violations) {
-    if (!seen_cls.insert(v.cls).second) continue;
+    if (seen_cls.count(v.cls)) continue;
+    if (attempts[v.cls] >= 6) continue;
+    attempts[v.cls]++;
     if (confirmed >= 3) break;
     const Scenario& s = *cs.ss[size_t(cs.order[v.index].scen)];
     Plan plan = make_plan(s, cs.verif_seed, cs.order[v.index].local, cs.thorough, int(v.index % vm::kProfileCount));
@@ -706,10 +715,12 @@ static int cmd_check(int argc, char** argv) {
     fprintf(stderr, "[check] candidate violation class=%s scenario=%s seed=%llu; reproducing and minimising...\n", v.cls.c_str(), s.name, (unsigned long long)plan.seed);
     Outcome first = run_in_child(s, plan);
     if (!first.violation) {
-      fprintf(stderr, "HARNESS-DEFECT violation of class %s at index %zu did not reproduce in a fresh process (got %s)\n%s\n", v.cls.c_str(), v.index, first.ok ? "ok" : first.cls.c_str(), v.detail.c_str());
-      exit_code = 2;
+      fprintf(stderr, "[check] note: candidate of class %s at index %zu did not reproduce in a fresh process (got %s); trying another candidate of that class\n%s\n", v.cls.c_str(), v.index, first.ok ? "ok" : first.cls.c_str(), v.detail.c_str());
+      unconfirmed_cls.insert(v.cls);
       continue;
     }
+    seen_cls.insert(v.cls);
+    unconfirmed_cls.erase(v.cls);
     Minimiser m{s, first.cls, cs.thorough ? 600 : 300, 0, now_s() + (cs.thorough ? 240 : 120)};
     Plan small = m.minimise(plan);
     Outcome fin = run_in_child(s, small);
@@ -747,6 +758,11 @@ static int cmd_check(int argc, char** argv) {
     replay_paths.push_back(name);
     confirmed++;
     if (exit_code == 0) exit_code = 1;
+  }
+
+  if (confirmed == 0 && !unconfirmed_cls.empty()) {
+    for (auto& c : unconfirmed_cls) fprintf(stderr, "HARNESS-DEFECT no candidate of class %s reproduced in a fresh process\n", c.c_str());
+    exit_code = 2;
   }
 
   double wall = now_s() - t0;
